@@ -172,7 +172,7 @@ def nuts_chain_run(ctx, nc, nd):
     if b is None:
         ctx.unknown('C09.nuts_run', A, 'anchor', why='anchor not found')
         return
-    ev = ctx.evaluate(b, no_inline=('nuts::NUTSChain::step', 'nuts::find_reasonable_epsilon'))
+    ev = ctx.evaluate(b, no_inline=('nuts::NUTSChain::step', ctx.helper_key('nuts.fre', 'nuts::find_reasonable_epsilon')))
     sp = b['sp']
     loops = [ls for ls in ev.vf.loops if ls.kind == 'for' and not ls.ctx and ls.owner == 'nuts::NUTSChain::run']
     steps = ev.events(lambda e: e.key == 'nuts::NUTSChain::step')
